@@ -4,6 +4,11 @@ differential run of the real msg servers / proposal handlers / end blockers (har
 correspondence and the spec checker (Model/C18Check.v) are evaluated in Coq on the real observations."""
 import json, os
 
+
+def vlib_repo():
+    import vlib
+    return vlib.REPO
+
 FILES = ["Base/Prelude.v", "Base/Dec.v", "Model/Spending.v", "Model/Ubi.v", "Model/Collectives.v",
          "Model/C18Check.v", "Proofs/Payouts.v"]
 
@@ -32,6 +37,37 @@ def report(R, cases, viol):
                         "real code violates clause %s in %s history #%s (%d operations; see replay for inputs and observations)" % (cl, c["kind"], c["id"], len(bad)), c)
 
 
+WRITERS = r"\.(SetClaimInfo|RemoveClaimInfo|SetSpendingPool|CreateSpendingPool|DepositSpendingPoolFromModule|DepositSpendingPoolFromAccount|ClaimSpendingPool|SetCollectiveContributer|DeleteCollectiveContributer|SetCollective|DeleteCollective|SendDonation|WithdrawCollective|ExecuteCollectiveRemove|SetUBIRecord|DeleteUBIRecord)\("
+# every call site OUTSIDE x/spending, x/ubi, x/collectives that writes their stores (file, method, count)
+PINNED_WRITERS = {("x/layer2/keeper/abci.go", "CreateSpendingPool", 1), ("x/layer2/keeper/abci.go", "DepositSpendingPoolFromModule", 1),
+                  ("x/recovery/keeper/msg_server.go", "DeleteCollectiveContributer", 1), ("x/recovery/keeper/msg_server.go", "SetCollectiveContributer", 1),
+                  ("x/recovery/keeper/msg_server.go", "RemoveClaimInfo", 1), ("x/recovery/keeper/msg_server.go", "SetClaimInfo", 1)}
+# the two blocks of RotateRecoveryAddress that rewrite claim records / contributor records (whitespace-normalised sha256)
+PINNED_BLOCKS = {"collectives": "8edffd89775a6cf7", "spending": "65b8089cb2cba778"}
+
+
+def external_writers(repo):
+    import re, collections, hashlib
+    found = collections.Counter()
+    for root in ("x", "app"):
+        for d, _, files in os.walk(os.path.join(repo, root)):
+            rel = os.path.relpath(d, repo)
+            if rel.startswith(("x/spending", "x/ubi", "x/collectives")):
+                continue
+            for f in files:
+                if f.endswith(".go") and not f.endswith("_test.go") and not f.endswith(".pb.go"):
+                    for m in re.finditer(WRITERS, open(os.path.join(d, f), errors="replace").read()):
+                        found[(os.path.join(rel, f), m.group(1))] += 1
+    table = {(f, m, n) for (f, m), n in found.items()}
+    src = open(os.path.join(repo, "x/recovery/keeper/msg_server.go"), errors="replace").read()
+    src = src[max(0, src.find("func (k msgServer) RotateRecoveryAddress")):]
+    blocks = {}
+    for name, a, b in (("collectives", "// - collectives module", "// - gov:councilor"), ("spending", "// - spending", "// - staking")):
+        i, j = src.find(a), src.find(b)
+        blocks[name] = hashlib.sha256(" ".join(src[i:j].split()).encode()).hexdigest()[:16] if 0 <= i < j else "missing"
+    return table, blocks
+
+
 def slim(c):
     return {"kind": c["kind"], "id": c["id"], "ops": [{k: v for k, v in o.items() if k in ("t", "op", "a", "p", "c", "res", "err")} for o in c["ops"][:6]]}
 
@@ -41,12 +77,19 @@ def run(R):
                   "sdk.Dec arithmetic as modelled in Base/Dec.v (Mul/Quo/RoundInt, banker's rounding), bank module modelled as balances per account with insufficient-funds / invalid-coins rejection",
                   "six probe runs in harness/cmd/c18 (spending end-block denominator guard, spending payout error instead of panic, vote-quorum range check, UBI period gate without wrap-around, UBI sums in sdk.Int with zero period refused, collective-remove Apply returning its error) select the model variant the tree is compared with; theorems are stated for both variants",
                   "the spec checker judges payments against its own ghost record (terms from accepted create/update, books as deposits minus payments, last registration/claim, bonds put in, maximum lock ever set, UBI records as upserted, donation book as seeded minus sent) and compares the stored records with it after every operation",
+                  "address rotations (x/recovery MsgRotateRecoveryAddress) are steps of the spending and collectives histories; their preconditions outside the C18 models (recovery secret / proof, rotation history, account existence, fee) are read from the real state by the harness and given to the model as a flag; MsgRotateValidatorByHalfRRTokenHolder writes no spending / ubi / collectives store (pinned call-site table) and is not driven",
+                  "block times carry nanosecond parts; the models and the checker work in whole seconds (Unix())",
                   "no axioms: every theorem of Properties/C18.v is closed under the global context"]
     R.assume += ["a passed proposal is the call of the handler's Apply inside a cache context that is written only on success (gov router); voting itself is C08",
                  "timestamps, periods and amounts are below 2^63 except where the model wraps explicitly (UBI last+period, UBI amount cast, hard-cap sum)",
                  "rates and weights generated by the harness are non-negative; the theorem claim_le_entitlement states the sign condition explicitly",
                  "collectives: MinCollectiveBond = 0 (no bond-value threshold / status changes), no pending staking rewards (multistaking rewards are seeded as an environment step), spending pool named by the collective absent",
                  "the three denominations and six accounts of the harness; InflationPossible = true (fresh distributor state)"]
+    table, blocks = external_writers(vlib_repo())
+    R.oblige("writers of the spending / ubi / collectives stores outside those modules are the pinned call sites (x/recovery address rotation, x/layer2 dapp pools)",
+             table == PINNED_WRITERS, "found %s, pinned %s" % (sorted(table), sorted(PINNED_WRITERS)))
+    R.oblige("the blocks of RotateRecoveryAddress that rewrite claim records and contributor records have the pinned text (their behaviour is driven by the rotation steps of the harness)",
+             blocks == PINNED_BLOCKS, "found %s, pinned %s" % (blocks, PINNED_BLOCKS))
     R.coq_files(FILES)
     R.coq_property()
     R.audit()
